@@ -445,8 +445,22 @@ pub fn storm_theme_sized(t: &mut Tape, heavy: bool) -> Option<Pos> {
 
 /// A searchable (non-terminal) game: root + moves. `mate_bias`: share of mate themes out of 8.
 pub fn gen_game(t: &mut Tape, mate_bias: usize, max_plies: usize) -> Option<(String, Vec<String>, Pos, &'static str)> {
+    gen_game_opts(t, mate_bias, max_plies, true)
+}
+
+/// Depth-limited searches of capture-storm positions (many queens) explode: cap their depth so that
+/// every generated search stays bounded. Time-limited searches are left alone.
+pub fn tame(spec: &mut SearchSpec) {
+    let Limit::Depth(d) = spec.limit else { return };
+    let Some((pos, _)) = build(spec) else { return };
+    let queens = pos.count(true, Kind::Q) + pos.count(false, Kind::Q);
+    let cap = if queens >= 8 { 1 } else if queens >= 6 { 2 } else if queens >= 5 { 3 } else if queens >= 4 { 5 } else { 255 };
+    spec.limit = Limit::Depth(d.min(cap));
+}
+
+pub fn gen_game_opts(t: &mut Tape, mate_bias: usize, max_plies: usize, allow_storm: bool) -> Option<(String, Vec<String>, Pos, &'static str)> {
     let special = t.pick(12);
-    let (root, src): (Pos, &'static str) = if special == 0 {
+    let (root, src): (Pos, &'static str) = if special == 0 && allow_storm {
         (storm_theme(t)?, "capture_storm")
     } else if special == 1 {
         (gen::gen_root(t, Mix::Sparse)?.pos, "sparse")
